@@ -28,6 +28,8 @@ type Loader struct {
 	mu     sync.RWMutex
 	cache  map[string]*ast.Journal
 	limits Limits
+	// parse errors of the cached files: a cached load reports what a fresh one does
+	cachedParseErrs map[string][]LoadError
 }
 
 func NewLoader() *Loader {
@@ -244,8 +246,10 @@ func (l *Loader) loadSingleInclude(
 
 	l.mu.RLock()
 	cached, ok := l.cache[includePath]
+	cachedErrs := l.cachedParseErrs[includePath]
 	l.mu.RUnlock()
 	if ok {
+		errors = append(errors, cachedErrs...)
 		// the cache saves re-parsing the file; its own includes still have to be followed
 		subResult, subErrors := l.resolveIncludes(includePath, cached, visited)
 		errors = append(errors, subErrors...)
@@ -292,8 +296,18 @@ func (l *Loader) loadSingleInclude(
 	errors = append(errors, subErrors...)
 
 	if subResult != nil && subResult.Primary != nil {
+		var ownParseErrs []LoadError
+		for _, e := range subErrors {
+			if e.Kind == ErrorParseError && e.Path == includePath {
+				ownParseErrs = append(ownParseErrs, e)
+			}
+		}
 		l.mu.Lock()
 		l.cache[includePath] = subResult.Primary
+		if l.cachedParseErrs == nil {
+			l.cachedParseErrs = make(map[string][]LoadError)
+		}
+		l.cachedParseErrs[includePath] = ownParseErrs
 		l.mu.Unlock()
 		result.Files[includePath] = subResult.Primary
 		result.FileOrder = append(result.FileOrder, includePath)
